@@ -9,8 +9,11 @@ sessions, bridges, listeners, observers) and an arbitrary, unbounded sequence of
 (install keys, send_rtp, raw send, send_rtcp, sync BYE, receive any datagram as RTP or RTCP, install
 / clear bridge, close, (re-)register listeners and observers — on any transport, in any order).
 The cryptographic hypothesis is explicit: it is the `unprotect*_sound` law of the suite
-("a session accepts only datagrams that are authentic under its key set"), which C05 establishes
-for rustrtc's `SrtpContext`; the inbound theorems conclude `S.Authentic* k w` through it.
+("a session accepts only datagrams that are authentic under its key set").  It is a HYPOTHESIS: no
+instance for rustrtc's SRTP code is constructed (see the header of `Gate.lean` for the C05 theorems
+of matching content and what is missing); the inbound theorems conclude `S.Authentic* k w` through it.
+The outbound theorems have no cryptographic content: `Form.prot c k` says the protect branch of `c`'s
+gate was taken under key set `k` and returned Ok — never the clear arm, never an error arm.
 
 What these theorems are: statements about which branch each of the seven gate copies takes in
 every reachable state.  They are deliberately simple; the tie to the code is the correspondence run.
